@@ -203,7 +203,7 @@ def run(rep, tier, seed):
                                               "_lrepr_bytes", "_lrepr_pattern"], "executed on CrossHair proxies / solver-chosen alphabet indices")
     rep.encoded("src/basilisp/lang/reader.py", ["read_str", "_read_str", "_read_num", "_read_unicode_escape_seq", "_read_byte_str"], "executed")
     rep.encoded_lisp("src/basilisp/core.lpy", ["pr-str", "read-string"], "compiled from source")
-    ss = specs(quick, 60 if quick else 400)
+    ss = specs(quick, 60 if quick else 240)
     rep.bounds = {"strings": f"<= {2 if quick else 3} characters over {len(STR_ALPHA)} escape-relevant characters (exhaustive), one fully symbolic character",
                   "numbers": "unbounded ints, small ratios, boundary floats", "collections": "depth <= 2, width <= 2, symbolic leaves"}
     rep.outside = ["value-exact round trip of arbitrary floats (only boundary values)", "deeper/wider collections", "records/types"]
